@@ -146,8 +146,10 @@ def enumerate_cases(tier):
             yield {"spec": spec, "combo": combo, "exact": exact and not (spec["m"] > spec["d"]), "near_grid_out": rnd.choice([None, 2, 4]),
                    "time": {"t0": 0.1, "t1": 0.1 + 6 * 0.125, "dt": 0.125, "tdtype": "float64"},
                    "c": [round(rnd.uniform(-1.5, 1.5), 3) for _ in range(4)], "outs": [0.3, 0.7],
-                   "entropy": rnd.randrange(2 ** 31 - 2), "via_adjoint": rnd.random() < 0.3, "extra": rnd.random() < 0.3,
-                   "adaptive": rnd.random() < 0.2, "renamed": rnd.random() < 0.35}
+                   "entropy": rnd.randrange(2 ** 31 - 2), "via_adjoint": rnd.random() < 0.3,
+                   # solvers that carry state are always also continued through extra=True / extra_solver_state
+                   "extra": combo["method"] == "reversible_heun" or rnd.random() < 0.3,
+                   "adaptive": combo["method"] != "reversible_heun" and rnd.random() < 0.2, "renamed": rnd.random() < 0.35}
 
 
 def run_case(case):
